@@ -53,6 +53,14 @@ impl Prop for C02 {
         for huge in [1u8, 2] {
             v.push(HistCase { universe: 6, spec: 0, wmode: 1, ctor: None, ops: vec![], huge });
         }
+        // histories on the huge graph: both directions x single/multi x the three duplicate
+        // policies (the remaining policy bits vary with the index), one scripted history each
+        for k in 0..12u8 {
+            let (directed, multi, dedupe) = (k & 1, (k >> 1) & 1, (k >> 2) % 3);
+            let rest = (k as u16 * 7 + 3) % 8; // loops / missing / loop strategy bits
+            let spec = directed | multi << 1 | ((rest & 1) as u8) << 2 | ((dedupe + 3 * ((rest >> 1) & 1) as u8 + 6 * ((rest >> 2) & 1) as u8) << 3);
+            v.push(HistCase { universe: 8, spec, wmode: 1, ctor: None, ops: crate::huge::huge_ops(0xC0FFEE + k as u64), huge: 1 });
+        }
         v
     }
     fn strategy(&self, tier: Tier) -> BoxedStrategy<HistCase> {
@@ -66,6 +74,14 @@ impl Prop for C02 {
         tier.pick(60_000, 600_000)
     }
     fn check(&self, case: &HistCase) -> Outcome {
+        if case.huge > 0 && !case.ops.is_empty() {
+            // a history on the huge graph (hubs with thousands of neighbours)
+            let mut out = Outcome::new();
+            crate::huge::history(case, crate::huge::Aspect::Reads, &mut out);
+            out.class("huge_graph_66003_nodes");
+            out.nontrivial = out.failures.is_empty() && !out.classes.iter().any(|c| c == "diverged_from_model");
+            return out;
+        }
         if case.huge > 0 {
             // the fixed huge-graph cases (more than 2^16 nodes), sampled reads and linear oracles
             let mut out = Outcome::new();
